@@ -350,6 +350,25 @@ def run(chk):
                                                  'spec': OT[mo] if mo >= 0 else 'XPTY0004'})
         if mo >= 0:
             chk.nontrivial.add(repr(('optable', o, a, b)))
+    # ---- an operand that is empty at run time (a path that selects nothing): every arithmetic operator and rounding function
+    # returns the empty sequence (XPath 2.0 3.4: 'if an operand is an empty sequence the result is an empty sequence')
+    import xml.etree.ElementTree as _ET6
+    from elementpath import select as _sel6, ElementPathError as _EPE6
+    from elementpath.xpath2 import XPath2Parser as _P2
+    from elementpath.xpath31 import XPath31Parser as _P31
+    _r6 = _ET6.XML('<r><n>7</n></r>')
+    for P in (_P2, _P31):
+        for expr in [f'{a} {op} {b}' for op in ('+', '-', '*', 'div', 'idiv', 'mod') for a, b in (('x', '2'), ('2', 'x'), ('x', 'x'), ('x', 'n'), ('n', 'x'), ('(x)', '2.5'), ('1e0', 'x/y'))] + \
+                ['-x', '+x', 'abs(x)', 'floor(x)', 'ceiling(x)', 'round(x)', 'round-half-to-even(x)', '-(x)', 'abs(x/y)']:
+            chk.evaluations += 1
+            chk.count('empty-operand')
+            try:
+                got = _sel6(_r6, expr, parser=P)
+            except _EPE6 as ex:
+                got = 'error ' + str(ex.code)
+            if got != []:
+                chk.violation('impl-vs-spec', {'parser': P.__name__, 'expr': expr, 'document': '<r><n>7</n></r>'}, {'impl': repr(got)[:200], 'spec': 'the empty sequence'})
+            chk.nontrivial.add('empty-operand:' + expr)
     chk.rule = ('grid of boundary values of the four numeric types (type pairs x idiv/mod/div-by-zero/+,-,* on exact types) '
                 'plus seeded random operands, and rounding functions on half-way values x precisions; non-trivial = '
                 'finite operands with a non-zero divisor (or a zero divisor for div), distinct by (op, operands)')
